@@ -17,3 +17,6 @@ import SwcVerif.Props.C05Wrap
 #print axioms C05.generated_eq_model
 #print axioms C05.generated_sort_tree_eq
 #print axioms C05.generated_sort_tree_ok
+#print axioms C05.sortNodes_refines
+#print axioms C05.generated_sort_nodes_inplace_ok
+#print axioms C05.generated_sort_nodes_ok
